@@ -11,7 +11,7 @@ use std::collections::BTreeMap;
 const LOCALES: &[&str] = &["en", "fr", "de", "ja", "ru", "ar", "fr-CA", "pt-BR", "pl"];
 const TEXTS: &[&str] = &[
     "Hello", "Click here", "Same text", "OK", "été €", "名前", "Привет мир", "نص", "a \"quoted\" word", "back\\slash", "tab\there", "nbsp\u{a0}here",
-    "zero\u{200b}width", "\u{301}combining first", "astral 😀 𝔘", "line\u{2028}sep", "</script>", "it's", "100%", "a{b}c", "semi;colon: here", "x",
+    "zero\u{200b}width", "nel\u{85}c1\u{9f}\u{80}", "\u{85}", "del\u{7f}bom\u{feff}", "\u{301}combining first", "astral 😀 𝔘", "line\u{2028}sep", "</script>", "it's", "100%", "a{b}c", "semi;colon: here", "x",
 ];
 const VAR_NAMES: &[&str] = &["name", "value", "who", "n", "total"];
 const COMP_NAMES: &[&str] = &["b", "i", "a", "strong"];
@@ -299,6 +299,35 @@ pub fn generate_project(seed: u64, index: u64) -> Project {
     Project { id: format!("gen/{seed}/{index}"), files, locale_files, locales, namespaces, locales_dir: "locales".into() }
 }
 
+/// One very large unit: more distinct texts than a 16-bit slot can number, with repeated texts all along, so that a
+/// text first met beyond slot 65535 is met again (C11 only, fault-free only, no code generation: size is the point).
+pub fn generate_huge(seed: u64) -> Project {
+    let mut rng = Rng::for_run(seed ^ 0x4855_4745, 0);
+    let n = 78_000 + rng.below(3_000);
+    let locales = vec!["en".to_string(), "fr".to_string()];
+    let mut files: BTreeMap<String, Vec<u8>> = BTreeMap::new();
+    let mut locale_files = vec![];
+    for l in &locales {
+        let mut out = String::with_capacity(n * 28);
+        out.push('{');
+        for i in 0..n {
+            if i > 0 {
+                out.push(',');
+            }
+            // every eighth key repeats the text of the key before it
+            let t = if i % 8 == 7 { i - 1 } else { i };
+            out.push_str(&format!("\"k{i:06}\":\"text {t} ({l})\""));
+        }
+        out.push('}');
+        let rel = format!("locales/{l}.json");
+        files.insert(rel.clone(), out.into_bytes());
+        locale_files.push(LocaleFile { rel, locale: l.clone(), namespace: None });
+    }
+    let cfg = "[package]\nname = \"case\"\nversion = \"0.1.0\"\nedition = \"2021\"\n\n[package.metadata.leptos-i18n]\ndefault = \"en\"\nlocales = [\"en\", \"fr\"]\n".to_string();
+    files.insert("Cargo.toml".into(), cfg.into_bytes());
+    Project { id: format!("gen/huge/{seed}"), files, locale_files, locales, namespaces: None, locales_dir: "locales".into() }
+}
+
 pub fn project_to_json(p: &Project) -> Value {
     json!({
         "id": p.id,
@@ -353,6 +382,9 @@ fn adversarial_values(target_key: &str) -> Vec<Value> {
         json!(["u8"]), json!([[]]), json!([["x", "_"], ["y", "_"]]), json!([["x", "_"], ["y", 1]]), json!(["f32", ["x", 1.0]]), json!([["x", 1], ["y", 2]]), json!(["u64", ["x", "18446744073709551615.."]]),
         json!(["i64", ["x", "..=-9223372036854775808"], ["y"]]), json!([["x", "1..=2", "3|4", "|"], ["y"]]), json!([["x", ""], ["y"]]), json!([[1, 2]]), json!([["x", [1, [2]]], ["y"]]), json!([{"value": "x"}]),
         json!([["$t(a)", 1], ["{{ count }} $t(a)"]]), json!(["u8", ["x", "0..=255"]]), json!(["i8", ["x", "..0"], ["y", "0.."]]),
+        // exclusive end bounds at the minimum of the number type (nothing can be below them), alone, with a start, in a list
+        json!(["u8", ["x", "..0"], ["y"]]), json!(["u16", ["x", "0..0"], ["y"]]), json!(["u32", ["x", "3..0"], ["y"]]), json!(["u64", ["x", "..0 | 5"], ["y"]]), json!(["i8", ["x", "..-128"], ["y"]]), json!(["i16", ["x", "..-32768 | 7"], ["y"]]),
+        json!([["x", "..-2147483648"], ["y"]]), json!(["i64", ["x", "..-9223372036854775808"], ["y"]]), json!(["i8", ["x", "127..=127", "..=-128"], ["y"]]), json!(["u8", ["x", "255.."], ["y", "..=0"]]), json!(["i32", ["x", "2147483647.."], ["y"]]),
         json!("@@RAW:1e400@@"), json!("@@RAW:-1e400@@"), json!("@@RAW:99999999999999999999999999@@"), json!("@@RAW:Infinity@@"), json!("@@RAW:.nan@@"), json!("@@RAW:0x10@@"), json!(-0.0), json!(18446744073709551615u64), json!(-9223372036854775808i64), json!(null), json!(true), json!({}), json!({"": "x"}), json!({"a b": "x"}), json!({"1abc": "x"}),
         // long first items of a sequence that are not a range type (the error quotes user text: no cut inside a character)
         json!(["Une boutique de quartier pas chère du tout, vraiment pas chère", ["x", 1]]), json!(["ééééééééééééééééééééééééééééééééééééééééé", "b"]), json!(["aééééééééééééééééééééééééééééééééééééééééé", "b"]),
